@@ -136,8 +136,45 @@ pub fn main() -> i32 {
     }
     let ctx = Ctx::new(&id, tier, seed as u64);
     eprintln!("[{}] tier={} repo={} tree_hash={}", id, tier.name(), env!("VERIF_REPO"), env!("VERIF_REPO_HASH"));
-    util::on_big_stack(|| (prop.run)(&ctx));
+    let running = std::sync::atomic::AtomicBool::new(true);
+    std::thread::scope(|sc| {
+        // watchdog: a registered case (families with a termination deadline) that does not come back is a violation
+        sc.spawn(|| {
+            while running.load(std::sync::atomic::Ordering::SeqCst) {
+                std::thread::sleep(std::time::Duration::from_millis(250));
+                if let Some(e) = util::watch_overdue() {
+                    hang_exit(&ctx, &prop, seed, &e);
+                }
+            }
+        });
+        util::on_big_stack(|| (prop.run)(&ctx));
+        running.store(false, std::sync::atomic::Ordering::SeqCst);
+    });
     finish(&ctx, &prop, seed)
+}
+
+/// A case did not terminate: write its replay file and the evidence of what was covered so far, report, leave (the
+/// spinning worker cannot be abandoned any other way). No replay confirmation here - `--replay` applies the same deadline.
+fn hang_exit(ctx: &Ctx, prop: &props::Prop, seed: i64, e: &util::WatchEntry) -> ! {
+    let secs = e.deadline.as_secs();
+    let msg = format!("no result after {} s (deadline of this family): the execution hangs", secs);
+    let body = json!({
+        "property": ctx.property, "family": e.family, "case": e.case,
+        "signature": {"kind": "hang", "deadline_secs": secs}, "message": msg,
+        "cases_with_this_signature": 1, "replays_reproduced": "not replayed (would hang)", "more_cases": [],
+        "tree_hash": env!("VERIF_REPO_HASH"),
+    });
+    fs::create_dir_all(format!("{}/replays", verif_dir())).ok();
+    let name = format!("{}-{:016x}.json", ctx.property, util::fnv64(serde_json::to_string(&json!([e.family, e.case])).unwrap().as_bytes()));
+    let path = format!("{}/replays/{}", verif_dir(), name);
+    fs::write(&path, serde_json::to_string_pretty(&body).unwrap()).ok();
+    println!("VIOLATION property={} replay={}", ctx.property, path);
+    println!("  family={} cases=1 signature={{\"kind\":\"hang\"}} :: {} case={}", e.family, msg, truncate(&e.case.to_string(), 300));
+    ctx.add_family(super::FamilyStats { name: format!("{}-interrupted", e.family), exhaustive: false, cap_hit: Some(format!("interrupted by a hanging case after {} s", secs)), ..Default::default() });
+    let groups = ctx.violations.lock().unwrap().iter().map(|(_, (n, _))| *n).sum::<u64>() + 1;
+    write_evidence(ctx, prop, seed, groups, &BTreeMap::new());
+    println!("[{}] VIOLATED tier={} (interrupted: hanging case in family {}) wall={:.1}s", ctx.property, ctx.tier.name(), e.family, ctx.start.elapsed().as_secs_f64());
+    std::process::exit(1)
 }
 
 fn finish(ctx: &Ctx, prop: &props::Prop, seed: i64) -> i32 {
@@ -371,6 +408,30 @@ fn replay_file(path: &str) -> i32 {
     println!("replaying property={} family={} case={}", property, family, v["case"]);
     std::env::set_var("VERIF_SHOW_PANICS", "1");
     std::env::set_var("VERIF_TRACE", "1");
+    if v["signature"]["kind"] == "hang" {
+        // the recorded failure is non-termination: the same deadline applies to the replay
+        let secs = v["signature"]["deadline_secs"].as_u64().unwrap_or(60);
+        let (tx, rx) = std::sync::mpsc::channel();
+        let (p2, f2, c2) = (property.to_string(), family.to_string(), v["case"].clone());
+        std::thread::Builder::new().stack_size(256 << 20).spawn(move || tx.send(replay_case(&p2, &f2, &c2)).ok()).expect("spawn");
+        return match rx.recv_timeout(std::time::Duration::from_secs(secs)) {
+            Err(_) => {
+                println!("REPLAY: oracle FAILED: no result after {} s (hang)", secs);
+                println!("VIOLATION property={} replay={}", property, path);
+                std::process::exit(1)
+            }
+            Ok(None) => 2,
+            Ok(Some(Ok(class))) => {
+                println!("REPLAY: oracle holds (outcome class {:016x}, terminated within {} s)", class, secs);
+                0
+            }
+            Ok(Some(Err(f))) => {
+                println!("REPLAY: oracle FAILED: {} signature={}", f.msg, serde_json::to_string(&f.sig).unwrap());
+                println!("VIOLATION property={} replay={}", property, path);
+                1
+            }
+        };
+    }
     match util::on_big_stack(|| replay_case(property, family, &v["case"])) {
         None => {
             eprintln!("no replay support for family {}", family);
